@@ -104,8 +104,12 @@ func runHistory(r *core.Run, cid string, L int) {
 		case x < 64:
 			// governance replaces the client of one path by another type and back: whatever was accepted stays accepted
 			a, b := s.RandNodePair()
-			if err := s.ToggleRoundTrip(a, b); err != nil {
-				r.Inconclusive("%s: client toggle failed: %v", cid, err)
+			gov := s.ToggleRoundTrip
+			if rng.Intn(2) == 0 {
+				gov = s.UpgradeClient
+			}
+			if err := gov(a, b); err != nil {
+				r.Inconclusive("%s: client toggle / upgrade failed: %v", cid, err)
 				return
 			}
 			r.Count("client_toggles_round_trip", 1)
